@@ -5,6 +5,7 @@ import (
 	"net"
 	"regexp"
 	"strconv"
+	"sync"
 	"strings"
 
 	"github.com/refraction-networking/conjure/pkg/station/geoip"
@@ -50,6 +51,10 @@ type RegConfig struct {
 
 	// ConnectingStats records stats related to connecting transports
 	ConnectingStats ConnectingTpStats
+
+	// policyMu guards the parsed block / allow lists above: a configuration reload replaces them
+	// while ingest workers and connection handlers consult them.
+	policyMu sync.RWMutex
 }
 
 // ParseBlocklists converts string arrays of blocklisted domains, addresses and
@@ -182,6 +187,9 @@ func (c *RegConfig) ParseOrResolveBlocklisted(provided string) (string, bool) {
 // isBlocklistedCovertAddr checks if the provided host string should be
 // blocked by on of the blocklisted subnets.
 func (c *RegConfig) isBlocklistedCovertAddr(addr net.IP) bool {
+	c.policyMu.RLock()
+	defer c.policyMu.RUnlock()
+
 	if c.enableCovertAllowlist {
 		// If allowlist check is enabled it takes precedence over blocklist.
 		for _, net := range c.covertAllowlistSubnets {
@@ -206,6 +214,9 @@ func (c *RegConfig) isBlocklistedCovertAddr(addr net.IP) bool {
 // isBlocklistedCovertDomain checks if the provided host string should be
 // blocked by on of the blocklisted Domain patterns.
 func (c *RegConfig) isBlocklistedCovertDomain(provided string) bool {
+	c.policyMu.RLock()
+	defer c.policyMu.RUnlock()
+
 	for _, pattern := range c.covertBlocklistDomains {
 		if pattern.MatchString(provided) {
 			return true
@@ -218,6 +229,9 @@ func (c *RegConfig) isBlocklistedCovertDomain(provided string) bool {
 // IsBlocklistedPhantom checks if the provided address should be
 // denied by on of the blocklisted Phantom subnets.
 func (c *RegConfig) IsBlocklistedPhantom(addr net.IP) bool {
+	c.policyMu.RLock()
+	defer c.policyMu.RUnlock()
+
 	for _, net := range c.phantomBlocklist {
 		if net.Contains(addr) {
 			// blocked by IP address
